@@ -204,7 +204,14 @@ def gen_C19(g, tier):
             cs.append(Case('t.in.arg %s' % enc(pre + sp + post), 'cmp', 'argument-spelling', check=spelling_check(e)))
     # malformed conventions
     bad = ['', ' ', 'x', 'linear', 'Lin', 'LIN', 'circular', 'ci', 'el', 'ellip', '3', '7', '-1', '10', '99', '+', '-', '.', 'lin,', '(lin)', '1x', '2.5', '0x1', '00', '01', '+2', '-0', '12', 'lin2']
-    for w in bad + [mutate(g, g.choice(SPELLINGS)[0]) for _ in range(n)]:
+    # numeric codes beyond the range of int and of long: residues 0, 1, 2 modulo 2^32 and 2^64, the limits of both types, long digit strings
+    big = []
+    for r_ in (0, 1, 2, 3):
+        for k_ in (1, 2, 3, 2 ** 31, g.randint(1, 2 ** 31)):
+            big += [str(k_ * 2 ** 32 + r_), str(-(k_ * 2 ** 32) + r_)]
+        big += [str(2 ** 64 + r_), str(-(2 ** 64) + r_), str(2 ** 63 + r_), str(-(2 ** 63) - r_)]
+    big += [str(2 ** 31), str(2 ** 31 - 1), str(-2 ** 31), str(-2 ** 31 - 1), str(2 ** 63 - 1), '9' * 25, '-' + '9' * 26, '1' + '0' * 30, '0' * 30 + '1', '0' * 30, '4294967296', '4294967297', '4294967298']
+    for w in bad + big + [mutate(g, g.choice(SPELLINGS)[0]) for _ in range(n)]:
         for d0 in (0, 2):
             cs.append(Case('t.in.basis %s %d' % (enc(w), d0), 'cmp', 'basis-malformed', check=malformed_check('basis', 0, w, '')))
     for w in ['', ' ', '0', '2', '-2', '+', '-', 'x', '1x', '11', '+-1', '--1', '1.5', '01', '-01', '+1+1', 'one'] + [mutate(g, g.choice(['+1', '-1', '1'])) for _ in range(n // 2)]:
